@@ -584,6 +584,12 @@ pub fn run(ctx: &Ctx) -> (Report, PropertyMeta) {
     if t == Tier::Thorough {
         crate::fuzzing::campaign(ctx, &mut report, "sim", 180);
     }
+    {
+        use crate::stress::sc;
+        let n = t.pick(400, 5000);
+        let cases = vec![sc("rep", "spawned", 5, n, 10), sc("rep", "block_on", 4, n, 3000), sc("rep", "spawned", 8, n / 2, 40_000)];
+        crate::stress::run_all(ctx, &mut report, "C08", &cases, 60);
+    }
     health_abs(&mut report, "has-out-of-turn-call", 500);
     health_abs(&mut report, "rep-with-malformed-requests", 500);
     health_abs(&mut report, "overlapping-requests", 500);
@@ -602,6 +608,7 @@ pub fn replay(_ctx: &Ctx, kind: &str, case: &Value) -> Vec<Failure> {
     match kind {
         "sequence" => parse_case::<SeqCase>(case).map(|c| seq_outcome(&c).failures),
         "concurrent" => parse_case::<ConcCase>(case).map(|c| conc_outcome(&c).failures),
+        "stress" => Ok(crate::stress::replay(_ctx, "C08", case)),
         _ => Err(vec![Failure::new("replay/unknown-kind", kind.to_string())]),
     }
     .unwrap_or_else(|e| e)
